@@ -51,6 +51,11 @@ Universe(tier) ==
   \* changes nothing about the members and the public superclasses of the package
   \cup { [h |-> h, split |-> FALSE, decoy |-> FALSE, aliased |-> FALSE, abstract |-> a]
          : h \in { x \in Hier3 : ~x[1].pub /\ x[1].ms # {} /\ x[3].pub /\ (tier # "quick" \/ x[2].ms = {}) }, a \in {"first", "last"} }
+  \* methkind: the methods of the private classes are static methods or class methods (public methods like any other); the public
+  \* classes define theirs as plain methods
+  \cup { [h |-> h, split |-> s, decoy |-> FALSE, aliased |-> FALSE, methkind |-> mk]
+         : h \in { x \in Hier3 : ~x[1].pub /\ x[1].ms # {} /\ x[3].pub /\ 1 \in AncIdx(x, 3, 3) /\ (tier # "quick" \/ x[1].ms = Meths) },
+           s \in (IF tier = "quick" THEN {FALSE} ELSE BOOLEAN), mk \in {"static", "classmethod"} }
   \cup { [h |-> h, split |-> FALSE, decoy |-> FALSE, aliased |-> FALSE] : h \in (IF tier = "quick" THEN { x \in Hier4(0) : x[1].ms = {"m1"} /\ x[4].ms = {} } ELSE Hier4(0)) }
 
 (* ---------- Appendix B.6 ---------- *)
@@ -121,7 +126,7 @@ Emit == (pc = "done" /\ cur = CHOOSE k \in PublicClasses(sc) : TRUE) => PrintT(T
 ToSet(seq) == { seq[j] : j \in 1..Len(seq) }
 IsSubseq(s, t) ==   \* s (without duplicates) occurs in t in the same order
   \A a, b \in 1..Len(s) : a < b => \E x, y \in 1..Len(t) : x < y /\ t[x] = s[a] /\ t[y] = s[b]
-ShapeS(s, k) == (IF s.aliased THEN ":private-ancestor-re-exported-under-public-alias" ELSE "") \o (IF "attrshadow" \in DOMAIN s THEN ":own-attribute-shadows" ELSE "") \o (IF "abstract" \in DOMAIN s THEN ":also-derives-from-ABC" ELSE "") \o (IF "viamodule" \in DOMAIN s THEN ":base-named-through-module-and-subscripted" ELSE "")
+ShapeS(s, k) == (IF s.aliased THEN ":private-ancestor-re-exported-under-public-alias" ELSE "") \o (IF "attrshadow" \in DOMAIN s THEN ":own-attribute-shadows" ELSE "") \o (IF "abstract" \in DOMAIN s THEN ":also-derives-from-ABC" ELSE "") \o (IF "viamodule" \in DOMAIN s THEN ":base-named-through-module-and-subscripted" ELSE "") \o (IF "methkind" \in DOMAIN s THEN ":private-classes-define-" \o s.methkind \o "-methods" ELSE "")
 Shape(h, k) == (IF Len(h[k].bases) = 2 THEN "two-bases" ELSE "one-base")
                \o (IF \E a \in PrivAnc(h, k) : Cardinality({ b \in PrivAnc(h, k) \cup {k} : a \in BasesOf(h, b) }) > 1 THEN ":shared-private-ancestor" ELSE "")
                \o (IF \E a \in PrivAnc(h, k) : PrivAnc(h, a) # {} THEN ":private-chain" ELSE "")
